@@ -91,6 +91,10 @@ def make_msg(rng, seq, uid, big=False):
     if rng.random() < 0.05:
         num = "0" * rng.randint(1, 3) + num
     tail = bytes(rng.randrange(256) for _ in range(rng.randint(0, 14)))
+    if rng.random() < 0.06:
+        # a second SOH-delimited 34=<n> further inside the message (an embedded frame in a data field): the message
+        # is filed under its FIRST MsgSeqNum
+        tail += b"\x01213=<x>\x0134=" + str(rng.choice((1, 2, 3, seq + 1, seq + 7))).encode() + b"\x01</x>"
     if big:
         # several database pages per message: with a small page cache one transaction spills to the file
         tail += bytes(rng.randrange(256) for _ in range(8)) * rng.choice((0, 10, 80, 200))
